@@ -129,6 +129,34 @@ pub fn gen_plan(seed: u64, metas: &[Meta], corpus_len: usize) -> Plan {
             ops.insert(0, TOp { task: t as u8, op: Op::Synth { e: 0, utt: utts[t % utts.len()].clone(), form: Form::Slice } });
         }
     }
+    // (not in pile-up plans: a thread parked at the pile-up site would wait for the spinning taker)
+    // hand-over: thread a starts a generator, pulls some frames and gives it away; thread b (which has done its own
+    // work on its own thread first, and may have a generator of its own alive) takes it over, pulls it to the end and
+    // synthesizes the same utterance in one go. A generator must not care which thread pulls it.
+    if nthreads >= 2 && !matches!(strategy, Strategy::PileUp { .. }) && r.chance(0.35) {
+        let a = r.below(nthreads - 1);
+        let b = a + 1 + r.below(nthreads - 1 - a);
+        let s = r.below(nshared);
+        let u = utts[r.below(utts.len())].clone();
+        let k = *r.pick(&[0usize, 1, 2, 5, 40]);
+        threads[a].push(TOp { task: a as u8, op: Op::NewGen { e: s, g: 1, utt: u.clone() } });
+        if k > 0 {
+            threads[a].push(TOp { task: a as u8, op: Op::Drain { g: 1, max: k } });
+        }
+        threads[a].push(TOp { task: a as u8, op: Op::GiveGen { g: 1, b: 0 } });
+        let own = r.chance(0.5);
+        if own {
+            let v = utts[r.below(utts.len())].clone();
+            threads[b].push(TOp { task: b as u8, op: Op::NewGen { e: s, g: 0, utt: v } });
+            threads[b].push(TOp { task: b as u8, op: Op::Drain { g: 0, max: 3 } });
+        }
+        threads[b].push(TOp { task: b as u8, op: Op::TakeGen { g: 1, b: 0 } });
+        threads[b].push(TOp { task: b as u8, op: Op::Drain { g: 1, max: 4000 } });
+        threads[b].push(TOp { task: b as u8, op: Op::Synth { e: s, utt: u, form: Form::Slice } });
+        if own {
+            threads[b].push(TOp { task: b as u8, op: Op::Drain { g: 0, max: 4000 } });
+        }
+    }
     let sched_seed = r.next_u64();
     let cold = r.chance(0.5);
     Plan { shared, threads, strategy, sched_seed, heavy, cold }
@@ -179,6 +207,12 @@ fn run_program(ops: &[TOp], shared: &[SharedEngine], env: &mut Env, simulated: b
         }
         if simulated {
             sched::yield_point(0);
+        }
+    }
+    // whoever waits for a generator of this program stops waiting now
+    for op in ops {
+        if let Op::GiveGen { b, .. } = &op.op {
+            crate::sim::box_close_if_pending(*b);
         }
     }
     let after: u64 = SITE_COUNTS.with(|c| c.borrow().iter().sum());
@@ -267,6 +301,7 @@ pub fn run_plan(plan: &Plan, env: &mut Env, corpus: &Arc<Vec<String>>, forced: O
     // warm plan: here, on the shared engines themselves; cold plan: in a forked copy of this process,
     // so that the engines the threads are about to share have never been used
     let mut seq: Vec<ThreadOut> = Vec::new();
+    crate::sim::boxes_reset();
     if plan.cold {
         let scratch = env.dir.join("seq-pass.out");
         let clean = |x: &str| x.replace(['\t', '\n', '\x1f'], " ");
@@ -375,6 +410,7 @@ pub fn run_plan(plan: &Plan, env: &mut Env, corpus: &Arc<Vec<String>>, forced: O
         s => s.clone(),
     };
     out.strategy = strategy.clone();
+    crate::sim::boxes_reset();
     let k = plan.threads.len();
     let sched = Sched::new(k, plan.sched_seed, strategy, forced);
     let shared = Arc::new(shared);
@@ -1029,6 +1065,7 @@ pub fn cmd_l2a(args: &crate::Args) -> i32 {
         .set("plans_with_9_or_more_threads_piled_up", J::u(all.iter().filter(|s| s.out.max_piled >= 9).count() as u64))
         .set("cold_plans_threads_make_the_first_calls_on_the_engines", J::u(all.iter().filter(|s| s.plan.cold).count() as u64))
         .set("warm_plans_reference_pass_first_in_the_same_process", J::u(all.iter().filter(|s| !s.plan.cold).count() as u64))
+        .set("plans_with_a_generator_handed_from_one_thread_to_another", J::u(all.iter().filter(|s| s.plan.threads.iter().any(|t| t.iter().any(|o| matches!(o.op, Op::TakeGen { .. })))).count() as u64))
         .set("tainted_runs_blocking_detected", J::u(all.iter().filter(|s| s.out.tainted).count() as u64))
         .set("forced_unblocks", J::u(all.iter().map(|s| s.out.forced_unblock).sum()))
         .set("determinism_pairs_checked", J::u(det_pairs))
